@@ -21,11 +21,13 @@ unsigned case_timeout_s() { return 1800; }
 // odd trials call get_estimate() between the steps, even trials do not.
 // hll_reuse / hll_union_reuse: the sketch (type = trial mod 3) resp. the union object is first filled with 4k unrelated keys,
 // reset(), then used.
-enum Fam { F_HLL4, F_HLL6, F_HLL8, F_HLL_UNION, F_HLL_UNION_MIXED, F_RAW, F_HLL_REUSE = F_RAW + 9, F_HLL_UNION_REUSE, F_N };
+// hll8_large_lgk: HLL_8 sketches of lg_k 16 (thorough also 17) with n = 11k, beyond the last point of the composite interpolation
+// table (10k): published errors of 0.3-0.4% make a small relative bias of HIP or composite estimate visible with few trials.
+enum Fam { F_HLL4, F_HLL6, F_HLL8, F_HLL_UNION, F_HLL_UNION_MIXED, F_RAW, F_HLL_REUSE = F_RAW + 9, F_HLL_UNION_REUSE, F_HLL8_LARGE, F_N };
 static const char* FAM_NAME[] = {"hll4", "hll6", "hll8", "hll_union", "hll_union_mixed_lgk",
   "hll_union_sketch_raw_finer", "hll_union_sketch_raw_equal", "hll_union_sketch_raw_coarser",
   "hll_union_raw_sketch_finer", "hll_union_raw_sketch_equal", "hll_union_raw_sketch_coarser",
-  "hll_union_sketch_raw_sketch_finer", "hll_union_sketch_raw_sketch_equal", "hll_union_sketch_raw_sketch_coarser", "hll_reuse", "hll_union_reuse"};
+  "hll_union_sketch_raw_sketch_finer", "hll_union_sketch_raw_sketch_equal", "hll_union_sketch_raw_sketch_coarser", "hll_reuse", "hll_union_reuse", "hll8_large_lgk"};
 static const target_hll_type TYPES[] = {HLL_4, HLL_6, HLL_8};
 
 static std::vector<Cell> build_cells(bool thorough) {
@@ -40,7 +42,11 @@ static std::vector<Cell> build_cells(bool thorough) {
   if (!thorough) raw_cfgs = {{6, 300, NMULTS - 1}, {10, 200, NMULTS - 3}};
   else raw_cfgs = {{5, 3000, NMULTS - 1}, {8, 3000, NMULTS - 1}, {11, 1500, NMULTS - 1}, {13, 800, NMULTS - 3}};
   static const bool RAW_MULT[NMULTS] = {false, true, false, true, false, true, false, true, true, false, true};   // k/8, k, 3k, 8k, 16k, 64k
-  for (int f = 0; f < F_N; ++f)
+  {
+    Cell x; x.fam = F_HLL8_LARGE; x.lg_k = 16; x.mi = 8; x.trials = thorough ? 400 : 200; x.n = 11ULL << 16; x.cost = static_cast<double>(x.n) * x.trials; cells.push_back(x);
+    if (thorough) { x.lg_k = 17; x.trials = 200; x.n = 11ULL << 17; x.cost = static_cast<double>(x.n) * x.trials; cells.push_back(x); }
+  }
+  for (int f = 0; f < F_HLL8_LARGE; ++f)
     for (auto& c : (f >= F_RAW ? raw_cfgs : cfgs))
       for (int mi = 0; mi <= c.max_mi; ++mi) {
         if (f >= F_RAW && !RAW_MULT[mi]) continue;
@@ -79,16 +85,15 @@ void run_case(uint64_t idx, Rng& r) {
   const uint64_t n = cell.n;
   const uint64_t base = r.next();
   seed_order(r);
-  describe("mc family=" + fam + " lg_k=" + std::to_string(cell.lg_k) + " n=" + std::to_string(n) + " (" + std::to_string(MULTS[cell.mi].num) + "/" +
-           std::to_string(MULTS[cell.mi].den) + " k) trials=" + std::to_string(cell.trials) + " keybase=" + std::to_string(base));
+  describe("mc family=" + fam + " lg_k=" + std::to_string(cell.lg_k) + " n=" + std::to_string(n) + " (" + str(static_cast<double>(n) / static_cast<double>(1ULL << cell.lg_k)) + " k) trials=" + std::to_string(cell.trials) + " keybase=" + std::to_string(base));
   std::vector<Trial> tr; tr.reserve(cell.trials);
   bool any_ooo_union = false;   // a union fed only coupon-mode sketches stays in order (HIP valid); otherwise out of order
   for (uint32_t t = 0; t < cell.trials; ++t) {
     const uint64_t kb = base + (static_cast<uint64_t>(t) << 32);
     const std::string ctx = "trial=" + std::to_string(t);
     auto key = [&](uint64_t i) { return bij(kb + i); };
-    if (cell.fam < F_HLL_UNION) {
-      hll_sketch s(cell.lg_k, TYPES[cell.fam]);
+    if (cell.fam < F_HLL_UNION || cell.fam == F_HLL8_LARGE) {
+      hll_sketch s(cell.lg_k, cell.fam == F_HLL8_LARGE ? HLL_8 : TYPES[cell.fam]);
       for (uint64_t i = 0; i < n; ++i) s.update(key(i));
       tr.push_back(observe(s, n, fam, ctx));
     } else if (cell.fam == F_HLL_REUSE) {
@@ -176,7 +181,7 @@ void run_case(uint64_t idx, Rng& r) {
   // exact-class cells (every trial in LIST/SET mode): the error is a rare collision event, so the per-trial
   // small-range window replaces the bias/spread statistics; coverage is still checked.
   const CellResult R = check_cell(tr, n, rse, fam, ctx, !all_exact, true);
-  if (!all_exact && cell.fam < F_HLL_UNION) {
+  if (!all_exact && (cell.fam < F_HLL_UNION || cell.fam == F_HLL8_LARGE)) {
     // composite estimator of a plain sketch: bias/spread against the published non-HIP error
     std::vector<Trial> ct = tr;
     for (auto& t : ct) t.c.est = t.aux;
